@@ -194,6 +194,9 @@ namespace Pistache::Http
                     value      = token.text();
                 }
                 cookie.ext.insert(std::make_pair(std::move(name), std::move(value)));
+                // step over the ';' that ends the attribute, as match_attribute() does
+                // for the known ones: the next attribute name does not start with it
+                cursor.advance(1);
             }
 
         } while (!cursor.eof());
